@@ -438,3 +438,13 @@ Example ex_resign :
   sig_set_signature (fun _ _ _ _ => [1; 2]) (fun _ _ _ _ => (1, 1)) ex_old_sig 0 0 (PrivRSA (2 ^ 2047 + 1) 65537 0) [5] =
   Ok (mkSig c16_alg_rsassa 16 16 c16_alg_sha256 [1; 2]).
 Proof. vm_compute. reflexivity. Qed.
+
+(* ---- format constants ----
+   The models take their format constants from Gen/Consts.v, which is regenerated from /repo's
+   source on every run; Spec/ConstPins.v (committed, written by bin/mkpins) pins every one of them
+   to the value the specifications give it.  A constant that drifts in the Go source breaks this
+   theorem instead of being silently followed by model and generator. *)
+From Fiano Require Spec.ConstPins.
+Theorem C16_format_constants_pinned : Spec.ConstPins.pinned_c16.
+Proof. exact Spec.ConstPins.pins_c16. Qed.
+Print Assumptions C16_format_constants_pinned.
